@@ -582,6 +582,15 @@ fn c02_crash() {
             }
         }
     }
+    // a removal is settled when it was the key's last operation and no background work of that key is pending
+    let pending_labels: Vec<String> = env::pending_tasks().iter().map(|(_, l)| l.split('#').next().unwrap_or("").to_string()).collect();
+    let mut settled_removal = vec![false; n_keys];
+    for ki in 0..n_keys {
+        let last = ops.iter().rev().find(|(k, _)| *k == ki).map(|(_, o)| o.clone());
+        if last == Some(Last::Removed) && !pending_labels.contains(&key_name(&key(ki as u8))) && torn_key != Some(ki) {
+            settled_removal[ki] = true;
+        }
+    }
     let files = env::fs::snapshot();
     drop(w);
     env::reset_tasks();
@@ -596,6 +605,10 @@ fn c02_crash() {
         if let Some(v) = &got {
             cover("served_after_restart");
             check_bool("restart:serves_only_previously_validated_bytes", g.accepted[ki].contains(v));
+        }
+        if settled_removal[ki] {
+            cover("settled_removal");
+            check_bool("restart:settled_removal_stays_removed", got.is_none());
         }
         if torn_key == Some(ki) {
             continue; // the torn file's key may legitimately be gone
@@ -661,8 +674,10 @@ fn run_background_tracking(w: &mut World, ops: &[(usize, Last)], durable: &mut V
                 }
             }
         }
-        // notifications are in-memory only; deliver them eagerly (they do not survive the crash anyway)
-        while let Some(cmd) = w.cmd_rx.try_recv() {
+        // completion notifications are in-memory only (lost by the crash); whether one is processed
+        // before the next operation is a scheduling choice
+        while !w.cmd_rx.is_empty() && choice(2) == 1 {
+            let cmd = w.cmd_rx.try_recv().unwrap();
             w.dispatch(cmd);
         }
     }
